@@ -130,6 +130,10 @@ int ext2fs_unmark_generic_bmap(ext2fs_generic_bitmap bitmap, __u64 arg)
 void ext2fs_mark_block_bitmap_range2(ext2fs_block_bitmap bitmap, blk64_t block, unsigned int num)
 {
 	int i = BMIDX(bitmap);
+#ifdef RSZ_DBG
+	REACH("dbg_range2");
+	if (G.n_mfm) REACH("dbg_range2_mfm");
+#endif
 	unsigned int t = rsz_tick();
 	if (GI.b >= block && GI.b - block < num) {
 		G.bit[i] = 1;
@@ -153,6 +157,10 @@ void ext2fs_unmark_block_bitmap_range2(ext2fs_block_bitmap bitmap, blk64_t block
 static ext2_filsys rsz_new_fs, rsz_old_fs;
 static unsigned long long rsz_get_loc(ext2_filsys fs, dgrp_t group, int kind)
 {
+#ifdef RSZ_DBG
+	if (G.n_rsv_ss2 == 1 && kind == T_BB) REACH("dbg_get_loc_bb");
+	if (G.n_rsv_ss2 == 1 && kind == T_IT) REACH("dbg_get_loc_it");
+#endif
 	if (group == GI.g && (fs == rsz_new_fs || fs == rsz_old_fs))
 		return G.loc[fs == rsz_old_fs][kind];
 	return rsz_chv();
